@@ -62,7 +62,12 @@ EPS = float(np.finfo(float).eps)
 MAPPINGS = gen.MAPPINGS
 RELS = ['same', 'refine', 'coarsen', 'equal', 'inside', 'outside', 'shifted',
         'overlap', 'disjoint']
-CLASSES = RELS + ['mixed', 'mixed', 'same', 'outside']
+# 'nearequal' / 'nearshift': grids that differ by less than the 1e-5 relative
+# tolerance of TensorMesh.__eq__ (np.allclose) but are NOT the same grid; the
+# volume average between them is not the identity (added after a seeded
+# "same grid" shortcut in maps.interpolate was missed).
+CLASSES = RELS + ['mixed', 'mixed', 'same', 'outside', 'nearequal',
+                  'nearshift']
 SIZES = [1, 1, 2, 2, 3, 3, 4, 4, 5, 6, 7, 8, 9, 10, 11, 12]
 VKINDS = ['random', 'random', 'random', 'homogeneous', 'blocks', 'spike',
           'trend']
@@ -300,6 +305,15 @@ def pair_1d(r, rel, L, a):
             xo = np.unique(np.r_[xo, lo, hi])
             while len(xo) - 1 > 12:
                 xo = np.delete(xo, int(r.integers(1, len(xo)-1)))
+    elif rel == 'nearequal':
+        xi = nodes_random(r, n_in, lo, hi)
+        xo = xi.copy()
+        if n_in > 1:                      # jitter interior nodes, same ends
+            h = np.diff(xi)
+            xo[1:-1] += r.uniform(-4e-6, 4e-6, n_in-1)*np.minimum(h[:-1], h[1:])
+    elif rel == 'nearshift':
+        xi = nodes_random(r, n_in, lo, hi)
+        xo = xi + r.uniform(-8e-6, 8e-6)*abs(xi[0])
     elif rel == 'shifted':
         xi = nodes_random(r, n_in, lo, hi)
         h0 = xi[1] - xi[0]
@@ -366,6 +380,8 @@ def gen_pair(seed, k, i):
         u = r.random()
         a = 0.0 if u < 0.3 else (Ld*r.uniform(-1, 1) if u < 0.7 else
                                  Ld*r.uniform(-10, 10))
+        if rels[d] == 'nearshift':
+            a = Ld*float(gen.choice(r, [-1, 1]))*r.uniform(50, 5000)
         xi, xo = pair_1d(r, rels[d], Ld, float(a))
         nin.append(xi)
         nout.append(xo)
@@ -441,7 +457,7 @@ def check_pair(rec, p, r, full_basis_max=216, models=True):
     lv = np.log10(v)
     lscale = 1.0 + float(np.abs(lv).max())
     ltol = (tol + 32*EPS)*lscale
-    same_region = all(x in ('same', 'refine', 'coarsen', 'equal')
+    same_region = all(x in ('same', 'refine', 'coarsen', 'equal', 'nearequal')
                       for x in p['rels'])
     rec.case()
     ok_all = True
